@@ -39,7 +39,7 @@ def Verdict (m : Meth) (r : Request) (t : TypedVals) (x : Except Stop FState × 
 macro "front_simp" "[" ts:Lean.Parser.Tactic.simpLemma,* "]" : tactic =>
   `(tactic| simp [afterMerge, frontSteps, runSteps, runStep, findDispatch, dispatch, runDispatchSteps, validate, runChecks,
     embedBody, runStmts, runStmt, runEvs, runEv, runBlock, isLit, useCb, TypedVals.get, TypedVals.val, Kw.ty,
-    convert, Val.ty, runCheck, runVStmt, readAll, bEnv, numView, Cmp.holds, Val.num?, Pred.ty, Pred.holds, Pred.params,
+    convert, Val.ty, runCheck, runVStmt, readAll, bEnv, numView, Cmp.holds, Val.num?, Pred.ty, Pred.holds, Pred.params, Pred.kind, Pred.lower, Pred.upper, predBody, PBody.eval, PAtom.eval,
     BExpr.eval, BExpr.isInt, BExpr.params, Request.has, Meth.traits, Traits.needs,
     M.ite_apply, errS, errT, Rat.intCast_natCast, $ts,*])
 
